@@ -482,5 +482,23 @@ def r02_8(ctx):
     return r
 
 
+def r02_9(ctx):
+    """'no application data is accepted' from an endpoint that has not proved possession of the fingerprinted
+    certificate: application data is handed to the upper layer only from a record that was authenticated under the
+    negotiated keys (never from an epoch-0 / plaintext record, whatever the connection's own bookkeeping says).
+    This is rule R03.1 of C03 (same sites, same guards), claimed here for the clause of C02 it decides."""
+    r = RuleResult("R02.9", "K1", "application data is accepted only from records authenticated under the negotiated keys")
+    from rules import c03
+    rr = c03.r03_1(ctx)
+    r.scope = rr.scope
+    r.obligations, r.discharged = rr.obligations, rr.discharged
+    r.sites, r.floor = rr.sites, rr.floor
+    r.samples = rr.samples
+    for v in rr.violations:
+        r.violate(v.fn, v.site, v.where, v.msg, v.path)
+        r.obligations -= 1
+    return r
+
+
 def run(ctx):
-    return [r02_1(ctx), r02_2(ctx), r02_3(ctx), r02_4(ctx), r02_5(ctx), r02_6(ctx), r02_7(ctx), r02_8(ctx)]
+    return [r02_1(ctx), r02_2(ctx), r02_3(ctx), r02_4(ctx), r02_5(ctx), r02_6(ctx), r02_7(ctx), r02_8(ctx), r02_9(ctx)]
